@@ -37,7 +37,7 @@ fn main() {
         Some("map") => { // vh map <fn> <cases.ndjson> <out.ndjson>
             let cases = read_ndjson(&args[3]);
             let f: fn(&Value) -> Value = match args[2].as_str() {
-                "schema" => vh::schemax::schema_check, "introspect" => vh::schemax::introspect, "introspect_invariants" => vh::schemax::introspect_invariants, "checker" => vh::schemax::checker_faults,
+                "schema" => vh::schemax::schema_check, "introspect" => vh::schemax::introspect, "introspect_invariants" => vh::schemax::introspect_invariants, "checker" => vh::schemax::checker_faults, "stubgen" => vh::schemax::stubgen,
                 "cand" => pure::cand_case, "typepair" => pure::type_pair, "typeone" => pure::type_one, "valround" => pure::value_roundtrip,
                 o => { eprintln!("unknown map fn {o}"); std::process::exit(2) }
             };
